@@ -41,7 +41,7 @@ _CACHE = {}
 def gen(rng, tier):
     n = 64 if tier == "quick" else 600
     cases = []
-    kinds = ["cfg", "cfg", "ttcfg", "ucfg", "udfta", "udfta"]
+    kinds = ["cfg", "cfg", "ttcfg", "ucfg", "udfta", "udfta", "cfgdfa"]
     for i in range(n):
         kind = kinds[i % len(kinds)]
         if kind in ("ttcfg", "udfta"):
@@ -67,6 +67,8 @@ def gen(rng, tier):
                 constraint = "(p%d p%d%s)" % (f[0], c[0], " _" * (len(args) - 1))
             else:
                 constraint = "(p%d%s)" % (f[0], " _" * len(args))
+        if kind == "cfgdfa":
+            constraint = "dfa:%d:%s" % (rng.choice([1, 2, 3]), rng.choice(["var", "leaf", "const"]))
         _, ret = D.arrow_parts(dsl["request"])
         dd = bound + 1 if kind != "ttcfg" else 3
         cands = D.terms(dsl, ret, dd, rng, 50)
@@ -304,7 +306,7 @@ def classify(case, io, mo_unused):
 
 
 def theorem_for(case):
-    if case["kind"] in ("cfg", "ttcfg"):
+    if case["kind"] in ("cfg", "ttcfg", "cfgdfa"):
         return ("C04_det_probability / C04_outside_zero (probability = product of the rule weights on members, 0 outside), "
                 "C04_sum_to_one, C04_count, C04_uniform, C04_normalise")
     return "C04_u_probability_partial, C04_u_outside_zero (correspondence for the sum and the count of unambiguous grammars)"
